@@ -356,6 +356,13 @@ class Normaliser:
             if isinstance(node.func, ast.Attribute) and not _is_module_ref(node.func.value):
                 recv = self.norm(node.func.value).key() + "."
             return Rat.atom(f"{recv}{f}[{';'.join(args + kws)}]")
+        if isinstance(node, ast.ListComp) and len(node.generators) == 1 and not node.generators[0].ifs \
+                and isinstance(node.generators[0].target, ast.Name):
+            gen = node.generators[0]
+            it = self.norm(gen.iter).key()
+            sub = Normaliser(dict(self.env), on_name=self.on_name, on_call=self.on_call, on_sub=self.on_sub, keep_casts=self.keep_casts)
+            sub.env[gen.target.id] = Rat.atom(f"elem[{it}]")
+            return Rat.atom(f"listcomp[{sub.norm(node.elt).key()};{it}]")
         if isinstance(node, (ast.Tuple, ast.List)):
             return Rat.atom("tuple[" + ";".join(self.norm(e).key() for e in node.elts) + "]")
         raise Unsupported("unsupported expression " + ast.dump(node)[:80])
